@@ -192,11 +192,13 @@ bytes base_file(const EncCase &e, bool toolbase)
   return o.out;
 }
 
-FaultRun run_faulted(bool is_decrypt, const bytes &file, const bytes &key, const EncCase &e, long n)
+FaultRun run_faulted(bool is_decrypt, const bytes &file, const bytes &key, const EncCase &e, long n, long read_fail_at, bool read_fail_once)
 {
   FaultRun fr;
   wapi::PipeCfg pc = pcfg(e, wapi::SchedSpec());
   pc.fail_new = n;
+  pc.in_fail_at = read_fail_at;
+  pc.in_fail_once = read_fail_once;
   ChildResult r = run_in_child([&]() { return (is_decrypt ? wapi::decrypt(file, key, pc) : wapi::verify(file, key, pc, true)).ser(); }, 60);
   fr.st = r.status;
   if (r.status == CH_OK)
